@@ -92,6 +92,8 @@ def spl_of(chain):
                 s += " consecutive=true"
             if c["keepempty"]:
                 s += " keepempty=true"
+            if c.get("keepevents"):
+                s += " keepevents=true"
             parts.append(s)
         elif op == "sort":
             parts.append("sort %s%s%s" % ("%d " % c["lim"] if c["lim"] else "", "" if c["asc"] else "-", f(c["f"])))
@@ -431,11 +433,13 @@ def run(chk):
     mc = [("MC_Pipeline_q1", "every single command x tables <=3 rows x all chunkings (<=1 empty batch, both EOF conventions)"),
           ("MC_Pipeline_q1ss", "streamstats window / reset_on_change with state carried across batches (what the command means)"),
           ("MC_Pipeline_q1tp", "two-pass commands and head-with-expression, alone and in short chains, tables <=4 rows with three distinct values"),
+          ("MC_Pipeline_q1rw", "Rewind obligation: every stateful streaming command (head, head <expr>, dedup incl. consecutive/keepevents, streamstats) in front of a two-pass command"),
           ("MC_Pipeline_q2", "every valid pair of commands x tables <=3 rows x all chunkings")]
     if not quick:
         mc = [("MC_Pipeline_t1", "every single command x tables <=4 rows (5 row kinds) x all chunkings"),
               ("MC_Pipeline_q1ss", "streamstats window / reset_on_change, state carried"),
               ("MC_Pipeline_q1tp", "two-pass commands and head-with-expression, tables <=4 rows with three distinct values"),
+              ("MC_Pipeline_q1rw", "Rewind obligation: stateful streaming command in front of a two-pass command"),
               ("MC_Pipeline_t2", "every valid pair x tables <=3 rows x all chunkings incl. empty batches and both EOF conventions"),
               ("MC_Pipeline_t3", "core triples x tables <=3 rows x all chunkings")]
     if os.environ.get("VERIF_DEV_SKIP_MC"):   # development only (mutant runs): the model runs do not depend on the Go tree
@@ -455,9 +459,9 @@ def run(chk):
     lines = []
     pick_sc, pick = gen_pick(chk.seed, 70 if quick else 500)
     try:
-        gens = [("Gen_Pipeline_q1", None), ("Gen_Pipeline_q1ss", None), ("Gen_Pipeline_q1tp", None), ("Gen_Pipeline_q2", pick), ("Gen_Pipeline_q3", pick)]
+        gens = [("Gen_Pipeline_q1", None), ("Gen_Pipeline_q1ss", None), ("Gen_Pipeline_q1tp", None), ("Gen_Pipeline_q1rw", None), ("Gen_Pipeline_q2", pick), ("Gen_Pipeline_q3", pick)]
         if not quick:
-            gens = [("Gen_Pipeline_t1", None), ("Gen_Pipeline_q1ss", None), ("Gen_Pipeline_q1tp", None), ("Gen_Pipeline_t2", pick), ("Gen_Pipeline_q3", pick)]
+            gens = [("Gen_Pipeline_t1", None), ("Gen_Pipeline_q1ss", None), ("Gen_Pipeline_q1tp", None), ("Gen_Pipeline_q1rw", None), ("Gen_Pipeline_t2", pick), ("Gen_Pipeline_q3", pick)]
         for cfg, extra in gens:
             beh, r = vlib.tlc_generate("Gen_Pipeline", cfg + ".cfg", timeout=1500, extra_files=[extra] if extra else None)
             chk.add_tlc(cfg, r, "behaviour generation")
@@ -576,7 +580,7 @@ def fn_level(chk, binary, sc, lines, quick, rnd):
         if quick:
             per = None if b["src"] == "Gen_Pipeline_q1ss" else (8 if b["src"] in ("Gen_Pipeline_q1", "Gen_Pipeline_q1tp") else 5)
         else:
-            per = None if b["src"] in ("Gen_Pipeline_q1ss", "Gen_Pipeline_t1") else (40 if b["src"] == "Gen_Pipeline_q1tp" else 12)
+            per = None if b["src"] in ("Gen_Pipeline_q1ss", "Gen_Pipeline_t1") else (40 if b["src"] in ("Gen_Pipeline_q1tp", "Gen_Pipeline_q1rw") else 12)
         for c in cases_of_line(li, b, quick, rnd, per):
             meta[c["id"]] = (li, c.pop("_sizes"), c["eof_last"])
             cases.append(c)
